@@ -1,10 +1,14 @@
 import Driver.Conv
+import Driver.PtrEng
 /-! `rlbox_model_driver`: one operation per line on stdin, one result per line on stdout. -/
 open Driver
 
 def stepLine (line : String) : String :=
   let t := toks line
   match Conv.step t with
+  | some r => r
+  | none =>
+  match PtrEng.step t with
   | some r => r
   | none => "badop"
 
